@@ -39,12 +39,37 @@ resolve_once = Fn(FA, "resolve_once", slot="resolver", ret="res", key="eval_asm:
     ], decreases="verif_vec_1@.len() - verif_next_1")},
 )
 
+depth_stub = Fn("src/expr/eval.rs", "check_recursion_depth_limit", impl="EvalContext", slot="expr", mode="stub", ret="res", key="EvalContext::check_recursion_depth_limit",
+    ensures=[C("err_is_loud", "res is Err ==> final(report).msgs() > old(report).msgs()"), C("ok_is_clean", "res is Ok ==> final(report).msgs() == old(report).msgs()"),
+             C("parents_kept", "final(report).parents() == old(report).parents()")])
+any_span = Fn("src/asm/parser/mod.rs", "span", impl="AstAny", slot="asm", mode="stub", ret="res", key="AstAny::span", ensures=[])
+iter_stub = ur.asm_resolve_iteratively.as_stub("resolver")
+NODE_KIND = "(match #[trigger] old(query).ast.nodes@[j] { asm::AstAny::Symbol(s) => s.kind is Label && s.hierarchy_level == 0, asm::AstAny::Instruction(_) => true, _ => false })"
+eval_asm = Fn(FA, "eval_asm", slot="resolver", ret="res", key="eval_asm::eval_asm", props=["C17", "C03"],
+    ensures=[
+        C("err_is_loud", "res is Err ==> final(query).report.msgs() > old(query).report.msgs()", ["C03"]),
+        C("only_top_level_labels_and_instructions", "res is Ok ==> forall|j: int| 0 <= j < old(query).ast.nodes@.len() ==> " + NODE_KIND, ["C17"]),
+        C("laid_out_from_the_current_position_of_the_bank", "res is Ok && !(res->Ok_0 is Unknown) ==> asm_strict_start(final(query).report) == ctx.bank_data.cur_position", ["C17"]),
+    ],
+    rewrites=[
+        Rewrite("let mut labels = std::collections::HashMap::<String, expr::Value>::new();", "let mut labels = verif_label_new();", rule="R8", why="HashMap::new -> prelude wrapper (empty table in the lookup model)"),
+        Rewrite(r"labels\.insert\(\s*ast_symbol\.name\.clone\(\),\s*expr::Value::Unknown\);", "verif_label_insert(&mut labels, ast_symbol.name.clone(), expr::Value::Unknown);", regex=True, rule="R8", why="HashMap<String,_>::insert -> prelude wrapper"),
+        Rewrite("    resolve_iteratively(\n", "    asm_resolve_iteratively(\n", rule="R6", why="renamed callee (two functions called resolve_iteratively live in one flattened module)"),
+    ],
+    for_to_while=[1],
+    loops={1: Loop(invariant=[
+        C("kept", "query.report.msgs() == old(query).report.msgs() && query.report.parents() == old(query).report.parents() && query.ast == old(query).ast && query.span == old(query).span"),
+        C("cursor", "verif_vec_1@ == old(query).ast.nodes@ && verif_next_1 <= verif_vec_1@.len()"),
+        C("kinds_so_far", "forall|j: int| 0 <= j < verif_next_1 ==> " + NODE_KIND),
+    ], decreases="verif_vec_1@.len() - verif_next_1")},
+)
+
 UNIT = Unit(
     "U-asmblock", "u_asmblock/skeleton.rs",
     items=ur.COMMON + [ur.asm_query_type, ur.asm_result_type, Type(FA, "struct", "AsmSubstitution", slot="resolver"),
         ur.can_guess.as_stub("resolver"), ur.eval_address.as_stub("resolver"), ur.resolve_encoding_stub,
         [f for f in cb.ALL_FNS if f.name == "concat"][0].as_stub("util"), uc.make_integer.as_stub("expr"),
-        parse_subst, perform_subst, resolve_once],
+        parse_subst, perform_subst, resolve_once, depth_stub, any_span, iter_stub, ur.get_output_position.as_stub("resolver"), ur.get_address.as_stub("resolver"), eval_asm],
     serves=["C17", "C09", "C02", "C03"],
     description="asm::resolver::eval_asm::resolve_once: one pass over an asm block",
 )
